@@ -421,6 +421,76 @@ def failed_kexinit_scenario(api, T):
                 pass
 
 
+STUCK_APIS = ["send", "send_stderr", "exec_command", "shutdown_write", "shutdown_2", "chan_close", "open_session",
+              "global_request", "resize_pty", "send_exit_status"]
+
+
+def stuck_rekey_scenario(api, loss, T):
+    """A re-exchange that cannot complete (our KEXINIT is out, the peer is silent) keeps the send gate closed; a call
+    that sends through the gate is made in that window; then the connection is lost.  The transport must become
+    inactive and the call (and renegotiate_keys) must return.  Returns (outcome, detail)."""
+    tc = ts = None
+    try:
+        tc, ts, sc, ss, srv = lib_net.make_pair()
+        chan = tc.open_session(timeout=15)
+        schan = ts.accept(5)
+        if schan is None:
+            raise RuntimeError("server did not accept the channel")
+        ss.hold()  # the server hears nothing from now on: it never answers the KEXINIT
+        rk, rres = _spawn(tc.renegotiate_keys)
+        if not lib_net.wait_until(lambda: not tc.clear_to_send.is_set(), 3.0):
+            return "inconclusive", "the send gate did not close"
+
+        def call():
+            if api == "send":
+                return chan.send(b"x" * 10)
+            if api == "send_stderr":
+                return chan.send_stderr(b"x" * 10)
+            if api == "exec_command":
+                return chan.exec_command("x")
+            if api == "shutdown_write":
+                return chan.shutdown_write()
+            if api == "shutdown_2":
+                return chan.shutdown(2)
+            if api == "chan_close":
+                return chan.close()
+            if api == "open_session":
+                return tc.open_session(timeout=120)
+            if api == "global_request":
+                return tc.global_request("x@y", wait=True)
+            if api == "resize_pty":
+                return chan.resize_pty(100, 40)
+            if api == "send_exit_status":
+                return chan.send_exit_status(3)
+            raise AssertionError(api)
+
+        th, res = _spawn(call)
+        th.join(0.3)
+        if loss == "eof":
+            sc.eof()
+        else:
+            threading.Thread(target=tc.close, daemon=True).start()
+        gone = lib_net.wait_until(lambda: not tc.is_active(), T)
+        end = time.monotonic() + T
+        th.join(max(0.0, end - time.monotonic()))
+        rk.join(max(0.0, end - time.monotonic()))
+        if not gone:
+            return "still-active", "transport still active %.1fs after the loss (call %s)" % (
+                T, "blocked" if th.is_alive() else res.get("outcome"))
+        if th.is_alive():
+            return "blocked", "call still blocked %.1fs after the loss" % T
+        if rk.is_alive():
+            return "blocked-rekey", "renegotiate_keys still blocked %.1fs after the loss" % T
+        return "returned", res.get("outcome", "")
+    finally:
+        for t in (tc, ts):
+            try:
+                if t is not None:
+                    t.close()
+            except Exception:
+                pass
+
+
 PROXY_CHILD = r'''
 import sys, time, threading, os
 sys.path.insert(0, sys.argv[1])
@@ -660,6 +730,30 @@ def run(ctx):
                      {"api": api, "scenario": "socket dead for writing; renegotiate_keys() fails; call; close()"},
                      "still blocked %.1fs after Transport.close()" % T)
 
+    # ---- calls through the send gate while a re-exchange is stuck, then the loss
+    sjobs = [(a, l) for a in STUCK_APIS for l in ("eof", "local_close")]
+
+    def sdo(job):
+        try:
+            return job, stuck_rekey_scenario(job[0], job[1], T)
+        except Exception as e:
+            return job, ("inconclusive", "setup: %r %s" % (e, exc_site(e)))
+
+    with ThreadPoolExecutor(max_workers=8) as ex:
+        sres = list(ex.map(sdo, sjobs))
+    for (a, l), (out, detail) in sres:
+        ctx.dist("stuck-rekey:" + out)
+        if out == "inconclusive":
+            continue
+        ctx.case(("stuck-rekey", a, l), True)
+        if out in ("blocked", "blocked-rekey"):
+            ctx.fail("blocked:%s:%s:during-stuck-rekey" % (a if out == "blocked" else "renegotiate_keys",
+                                                           "local_close" if l == "local_close" else "remote-loss"),
+                     {"api": a, "loss": l, "scenario": "KEXINIT sent, peer silent; call; loss"}, detail)
+        elif out == "still-active":
+            ctx.fail("transport-stays-active:%s:during-stuck-rekey" % l,
+                     {"api": a, "loss": l, "scenario": "KEXINIT sent, peer silent; call; loss"}, detail)
+
     # ---- ProxyCommand at EOF (model: proxyRecv fixed) vs real child processes
     pm = ctx.driver("C13", ["proxy fixed 10 0 3 4", "proxy fixed 10 0 - 2"])
     r1 = proxy_case("recv", T)
@@ -691,7 +785,8 @@ META = {
               "prediction, every run; plus calls entered from inside the shutdown path after each of its steps and "
               "channel requests raced by the loss. The ORDER of the wake-ups on both shutdown paths and the guard of "
               "Channel._event_pending are regenerated from the AST every run and the rows are built from them "
-              "(accept_is_notified_after_inactive, both_paths_close_channels, every_api_has_a_row, "
+              "(accept_is_notified_after_inactive, both_paths_close_channels, closing_a_channel_wakes_every_waiter, "
+              "no_caller_waits_with_a_teardown_lock_held, every_api_has_a_row, "
               "no_unclassified_wait_site; witnesses "
               "accept_notify_before_inactive_hangs_witness, channel_request_old_hangs_when_loss_races_the_call_witness)."),
     "note": ("Not modelled: wake-up latency, OS thread scheduling, sockets and child-process signalling. On the real "
